@@ -37,7 +37,7 @@ Proof. split; [exact receipt_unknown_id | exact receipt_without_id]. Qed.
    receipt event carrying the message's identity *)
 Theorem C02_segmented_receipts :
   forall r log k sq md uid gs,
-  (2 <= k)%nat ->
+  (2 <= k <= 255)%nat ->
   (forall i j, (i < k)%nat -> (j < k)%nat -> sq i = sq j -> i = j) ->
   (forall i j, (i < k)%nat -> (j < k)%nat -> md i = md j -> i = j) ->
   valid k (fun _ => PNot) None gs ->
@@ -53,7 +53,7 @@ Proof. exact segmented_receipts. Qed.
 Theorem C02_concurrent_receipts :
   forall (n : nat) (D : nat -> mdesc2),
   (forall j, (j < n)%nat ->
-     (2 <= m2_k (D j))%nat /\ 0 <= m2_r (D j) < 65536
+     (2 <= m2_k (D j) <= 255)%nat /\ 0 <= m2_r (D j) < 65536
      /\ (forall a b, (a < m2_k (D j))%nat -> (b < m2_k (D j))%nat -> m2_sq (D j) a = m2_sq (D j) b -> a = b)
      /\ (forall a b, (a < m2_k (D j))%nat -> (b < m2_k (D j))%nat -> m2_md (D j) a = m2_md (D j) b -> a = b)) ->
   (forall i j, (i < n)%nat -> (j < n)%nat -> i <> j ->
